@@ -2,6 +2,7 @@
   C02 — ORDER BY, DISTINCT and TOP/LIMIT compose as sort, then dedup, then truncate.
 -/
 import Rbql.Proofs.RunSelect
+import Rbql.Proofs.OrderAndStop
 namespace Rbql
 
 /-- The composition law, for every chain shape {ORDER BY asc/desc} × {none, DISTINCT, DISTINCT COUNT} ×
@@ -87,6 +88,46 @@ theorem C02_writer_protocol (q : SemQuery) (es : List (List Val × Row)) (sink :
     (((buildChain q sink).feedStop es).1.finish).getSink.finished = sink.finished + 1 ∧
     (((buildChain q sink).feedStop es).1.finish).getSink.afterRefusal = 0 :=
   ⟨chain_finish_once q es sink, chain_no_write_after_refusal q es sink h hw⟩
+
+/-- ORDER BY outputs a permutation of the unsorted result … -/
+theorem C02_order_is_permutation (q : SemQuery) (es : List (List Val × Row)) : (orderSpec q es).Perm (es.map (·.2)) :=
+  orderSpec_perm q es
+
+/-- … non-decreasing in the key … -/
+theorem C02_order_sorted (es : List (List Val × Row)) :
+    (es.mergeSort (fun x y => keyLe x.1 y.1)).Pairwise (fun x y => keyLe x.1 y.1 = true) :=
+  order_sorted es
+
+/-- … with ties in input order (stability): all entries whose key equals `k` come out in their input order -/
+theorem C02_order_ties_keep_input_order (es : List (List Val × Row)) (k : List Val) :
+    (es.mergeSort (fun x y => keyLe x.1 y.1)).filter (fun e => keyCmp e.1 k == .eq) = es.filter (fun e => keyCmp e.1 k == .eq) :=
+  order_ties_keep_input_order es k
+
+/-- DESC outputs exactly the reverse of that sequence -/
+theorem C02_desc_is_reverse (q : SemQuery) (es : List (List Val × Row)) (ho : q.orderBy.isSome) :
+    orderSpec { q with desc := true } es = (orderSpec { q with desc := false } es).reverse :=
+  orderSpec_desc_is_reverse q es ho
+
+/-- A bounded query that needs no buffering stops pulling input once the bound is reached: as soon as a
+prefix of the input already yields more than `k` (distinct) records, no record after that prefix is pulled —
+and only the prefix's evaluations need to succeed, so errors (or anything at all) further on are never seen. -/
+theorem C02_streaming_stop (q : SemQuery) (A B : Table) (k : Nat) (hsel : q.isUpdate = false) (hagg : q.isAgg = false)
+    (ho : q.orderBy = none) (hd : q.distinct ≠ .count) (ht : q.top = some k)
+    (hjb : ∀ js, q.join = some js → joinBError js.rhs B = none)
+    (m : Nat) (es : List (List Val × Row)) (hes : emissions q B (A.take m) 0 = .ok es)
+    (hk : k < (dedupSpec q.distinct (es.map (·.2))).length) :
+    (run q A B).error = none ∧ (run q A B).pulled ≤ m ∧ (run q A B).rows = selectSpec q es :=
+  run_top_stops_within q A B hsel hagg ho hd k ht hjb m es hes hk
+
+/-- finite form of "terminates on unbounded input": whatever follows the record at which the engine stopped
+is irrelevant — replacing the rest of the input by anything gives the same result and the same number of pulls -/
+theorem C02_tail_irrelevant (q : SemQuery) (A B : Table)
+    (hstopped : (run q A B).error = none ∧ (run q A B).pulled < A.length) (ext : Table) :
+    let n := (run q A B).pulled
+    (run q (A.take n ++ ext) B).rows = (run q A B).rows ∧ (run q (A.take n ++ ext) B).pulled = n ∧
+      (run q (A.take n ++ ext) B).error = none := by
+  have h := run_tail_irrelevant' q A B hstopped ext
+  exact ⟨h.1, h.2.1, h.2.2.1⟩
 
 /-! non-vacuity: ties, duplicates and a bound -/
 example : firstOccurrences [[Val.str ['x']], [Val.str ['y']], [Val.str ['x']]] = [[Val.str ['x']], [Val.str ['y']]] := by decide
